@@ -16,7 +16,7 @@ func init() {
 		id: "C40", level: "other", needs: loadNeeds{ssa: true},
 		decides: "absence of five enumerated panic classes in the server-side code reachable from the registered route handlers and the router's ServeHTTP (repository call graph: static calls, closures, interface invokes by CHA, stored function values; restricted to the server, router, util, resources, dsns, caches, tokens, sqlparse, defs, errors, i18n, ui and validate packages): " +
 			"(1) every index or slice bound with a constant into a slice or string of statically unknown length is behind a len() test that implies it; (2) every single-result type assertion is on a value whose dynamic type is fixed by construction (listed) — otherwise it is a finding; (3) the explicit panic sites are a frozen, read list; (4) every integer division or remainder has a constant non-zero divisor or is behind a test of the divisor against zero; (5) no pointer is compared with nil and then dereferenced on the nil edge.",
-		misses: "computed (non-constant) indices, nil map writes, nil dereferences without a contradicting check, panics inside third-party and standard-library code, and everything the interpreter does while running a service (C07); the claim is 'these classes', not 'no panic'.",
+		misses: "computed (non-constant) indices, writes into maps other than the collection- and body-derived ones of R-C40-8, nil dereferences without a contradicting check, panics inside third-party and standard-library code, and everything the interpreter does while running a service (C07); the claim is 'these classes', not 'no panic'.",
 		run:    runC40,
 	})
 }
@@ -68,6 +68,7 @@ var c40AssertOK = map[string]string{
 func runC40(w *World, r *Report) {
 	r.Rule("R-C40-1", "constant index / slice bound into a slice or string of unknown length is behind a len() test implying it", 100)
 	r.Rule("R-C40-7", "a pointer-typed struct member that the function tests against nil somewhere (the optional members of request bodies) is dereferenced only where a test of the same member found it non-nil", 5)
+	r.Rule("R-C40-8", "a map that is an element of a slice, a value of another map, a range value or the result of a type assertion is written only behind a nil test of that map (a JSON null decodes to a nil map)", 1)
 	r.Rule("R-C40-2", "single-result type assertion only on values whose dynamic type is fixed by construction (listed with reason)", 10)
 	r.Rule("R-C40-3", "explicit panic sites reachable from a handler are a frozen list", 2)
 	r.Rule("R-C40-4", "integer division / remainder: constant non-zero divisor, or behind a test of the divisor against zero", 8)
@@ -261,6 +262,9 @@ func runC40(w *World, r *Report) {
 
 		// ---- R-C40-7 optional members
 		c40OptionalMembers(w, r, fn, "R-C40-7", c40OptionalOK)
+
+		// ---- R-C40-8 writes into maps taken out of collections
+		c40NestedMapWrites(w, r, fn, "R-C40-8", c40NestedMapOK)
 	}
 
 	// ---- R-C40-6 integers parsed from text are range-tested before they size or index anything
@@ -1033,6 +1037,10 @@ func (s *c40Stores) assertFixedByStore(ta *ssa.TypeAssert) string {
 
 var c40OptionalOK = map[string]string{}
 
+var c40NestedMapOK = map[string]string{
+	"scripting.applySymbolsToTask|write into the member Data of a TXOperation body": "inside a loop over `keys`, a slice filled just before by ranging over the same map: the loop has iterations only when the map is not nil",
+}
+
 // ---------------------------------------------------------------------------
 // R-C40-7 (and R-C07-11): optional members.
 //
@@ -1186,4 +1194,166 @@ func fieldBaseType(ptr ssa.Value) types.Type {
 	}
 
 	return ptr.Type()
+}
+
+// ---------------------------------------------------------------------------
+// R-C40-8: no write into a map that was taken out of a decoded collection
+// without a nil test.  A JSON `null` where an object is expected decodes to a
+// nil map; `rows[i][k] = v` on it panics (assignment to entry in nil map).
+
+func c40NestedMapWrites(w *World, r *Report, fn *ssa.Function, rule string, okTable map[string]string) {
+	count := map[string]int{}
+
+	// a struct that this function fills from JSON, or receives: its map members can be nil
+	decodedOrGiven := func(base ssa.Value) bool {
+		base = resolveLocal(stripValue(base))
+
+		switch b := base.(type) {
+		case *ssa.Parameter:
+			return true
+		case *ssa.Alloc:
+			decoded := false
+
+			if b.Referrers() != nil {
+				for _, ref := range *b.Referrers() {
+					switch x := ref.(type) {
+					case *ssa.MakeInterface:
+						if x.Referrers() != nil {
+							for _, r2 := range *x.Referrers() {
+								if c, ok := r2.(*ssa.Call); ok {
+									switch callID(c.Common()) {
+									case "encoding/json.Unmarshal", "encoding/json.Decoder.Decode":
+										decoded = true
+									}
+								}
+							}
+						}
+					case *ssa.Store:
+						// a local copy of a parameter
+						if x.Addr == ssa.Value(b) {
+							if _, isParam := x.Val.(*ssa.Parameter); isParam {
+								decoded = true
+							}
+						}
+					}
+				}
+			}
+
+			return decoded
+		case *ssa.UnOp, *ssa.Extract, *ssa.Call, *ssa.Lookup, *ssa.Index, *ssa.Field:
+			return true // came from somewhere else: not built here
+		}
+
+		return false
+	}
+
+	allInstrs(fn, func(in ssa.Instruction) {
+		mu, ok := in.(*ssa.MapUpdate)
+		if !ok {
+			return
+		}
+
+		m := resolveLocal(stripValue(mu.Map))
+
+		origin := ""
+
+		var member *ssa.FieldAddr
+
+		switch x := m.(type) {
+		case *ssa.UnOp:
+			if x.Op == token.MUL {
+				if _, isIdx := x.X.(*ssa.IndexAddr); isIdx {
+					origin = "an element of a slice"
+				}
+
+				// a map member of a body type (internal/defs): absent in the JSON, nil here
+				if fa, isField := x.X.(*ssa.FieldAddr); isField {
+					if n := namedOf(fa.X.Type()); n != nil && n.Obj().Pkg() != nil && strings.HasSuffix(n.Obj().Pkg().Path(), "/internal/defs") && decodedOrGiven(fa.X) {
+						origin = "the member " + fieldName(fa.X.Type(), fa.Field) + " of a " + n.Obj().Name() + " body"
+						member = fa
+					}
+				}
+			}
+		case *ssa.Field:
+			if n := namedOf(x.X.Type()); n != nil && n.Obj().Pkg() != nil && strings.HasSuffix(n.Obj().Pkg().Path(), "/internal/defs") && decodedOrGiven(x.X) {
+				origin = "the member " + fieldName(x.X.Type(), x.Field) + " of a " + n.Obj().Name() + " body"
+			}
+		case *ssa.Index:
+			origin = "an element of a slice"
+		case *ssa.Lookup:
+			origin = "a value of another map"
+		case *ssa.Extract:
+			switch x.Tuple.(type) {
+			case *ssa.Next:
+				origin = "a value taken while ranging"
+			case *ssa.Lookup:
+				origin = "a value of another map"
+			case *ssa.TypeAssert:
+				origin = "a value asserted to be a map"
+			}
+		case *ssa.TypeAssert:
+			origin = "a value asserted to be a map"
+		}
+
+		if origin == "" {
+			return
+		}
+
+		key := fnKey(fn) + "|write into " + origin
+		count[key]++
+
+		if n := count[key]; n > 1 {
+			key += "#" + sprintInt(n)
+		}
+
+		same := func(v ssa.Value) bool {
+			return v == m || resolveLocal(stripValue(v)) == m || sameSliceValue(v, m)
+		}
+
+		cuts := cutEdges(fn, func(f Fact) bool {
+			switch f.Kind {
+			case "nonnil":
+				return same(f.V)
+			case "true":
+				// `for k := range m { m[k2] = … }`: the loop body runs only for a non-nil map
+				if ex, ok := f.V.(*ssa.Extract); ok && ex.Index == 0 {
+					if nx, ok := ex.Tuple.(*ssa.Next); ok {
+						if rg, ok := nx.Iter.(*ssa.Range); ok {
+							return same(rg.X)
+						}
+					}
+				}
+			}
+
+			return false
+		})
+
+		// `if b.m == nil { b.m = map…{} }`
+		fresh := func(i ssa.Instruction) bool {
+			st, ok := i.(*ssa.Store)
+			if !ok || member == nil {
+				return false
+			}
+
+			fa, ok := st.Addr.(*ssa.FieldAddr)
+			if !ok || fa.Field != member.Field || resolveLocal(fa.X) != resolveLocal(member.X) && fa.X != member.X {
+				return false
+			}
+
+			_, isMake := st.Val.(*ssa.MakeMap)
+
+			return isMake
+		}
+
+		reached := pathFromEntryAvoiding(fn, cuts, fresh, func(i ssa.Instruction) bool { return i == in })
+
+		switch {
+		case reached == nil:
+			r.Discharge(rule, key, w.pos(in.Pos()), "behind a nil test of the map, inside a range over it, or after it was given a fresh map")
+		case okTable[key] != "":
+			r.Except(rule, key, w.pos(in.Pos()), okTable[key])
+		default:
+			r.Violate(rule, key, w.pos(in.Pos()), "the map written here is "+origin+" and was never tested against nil: a null (or an absent member) in that position of the request body makes it a nil map, and the assignment panics")
+		}
+	})
 }
